@@ -76,6 +76,8 @@ def scope():
     base = [0, 1, 2, 3, 253, 254, 255]
     regs = [list(c) for r in range(len(base) + 1) for c in itertools.combinations(base, r)]
     regs += [list(range(0, 254)), list(range(1, 255)), list(range(0, 253)), [5], [100, 200]]
+    # the registry is an insertion-ordered dict: the same key sets entered in descending and in mixed order
+    regs += [list(reversed(r)) for r in regs if 2 <= len(r) <= 7] + [[5, 4], [5, 2], [254, 1], [3, 1, 2], [200, 100, 150]]
     return regs
 
 
@@ -122,5 +124,5 @@ def bounded(world, tier, seed, rep):
         fails, n = search(v)
         total += n
         bad += fails
-    return {"label": "bounded", "native_failure": bad[0] if bad else None, "scope": "registries: all subsets of {0,1,2,3,253,254,255} + dense 0..253, 1..254, 0..252 + {5},{100,200}; x write ok/fails x 5 versions",
+    return {"label": "bounded", "native_failure": bad[0] if bad else None, "scope": "registries: all subsets of {0,1,2,3,253,254,255} in ascending and descending insertion order + dense 0..253, 1..254, 0..252 + a few mixed orders; x write ok/fails x 5 versions",
             "evaluations": total}
